@@ -1,4 +1,5 @@
 """C13 - Replies are classified by their status words; bad replies cannot pass or crash."""
+import os
 import struct
 
 from hypothesis import strategies as st
@@ -13,12 +14,14 @@ PID = "C13"
 LEVEL = "exploration"
 TECHNIQUE = ("exhaustive status matrix (general status 0..255 x extended-status layouts x reply services x request kinds x encapsulation status) at "
              "packet level, Hypothesis-driven forced statuses and reply corruptions (every truncation point, byte flips, random bytes) at driver "
-             "level; oracle = total classification function + falsy-with-text + only library exceptions")
+             "level, coverage-guided fuzzing (atheris) of arbitrary reply bytes for 14 request kinds at packet level; "
+             "oracle = total classification function + falsy-with-text + only library exceptions")
 RULE = ("matrix case = (request kind in generic connected/unconnected, read, read-fragmented, write, write-fragmented, read-modify-write, "
         "multi-service member vectors, register session, list identity; reply service; general status 0..255; 0/1/2 extended words; "
         "encapsulation status); driver case = generated read/write/generic scenario with a forced status on the n-th request / a service / the "
         "multi-service wrapper, or with the k-th reply truncated at every point / flipped / replaced by random bytes; non-trivial = status != 0, "
-        "or corrupted reply, or mixed member statuses; distinct = hash of the case")
+        "or corrupted reply, or mixed member statuses; fuzz case = (request kind incl. array / string / structure reads and two Multiple Service "
+        "Packets, arbitrary reply bytes up to 160), non-trivial when the reply holds at least a whole encapsulation header; distinct = hash of the case")
 LEVEL_TEXT = ("The status matrix is enumerated completely at packet level against a reference classification function; public calls are then "
               "driven with forced statuses and corrupted replies, where only falsy results / library exceptions are acceptable and a reply "
               "shorter than its status words must never be reported as success.")
@@ -381,6 +384,121 @@ def check_short_reply(kind, cut, session=0x1234):
     return []
 
 
+# ------------------------------------------------------------------------------------------------
+# arbitrary reply bytes at packet level (driven by atheris, see vf/fuzz_reply.py; also replayable)
+# ------------------------------------------------------------------------------------------------
+FUZZ_KINDS = ["gconn", "gunconn", "read", "readfrag", "write", "writefrag", "rmw", "register", "listidentity",
+              "read-array", "read-string", "read-struct", "multi3", "multi-mixed"]
+
+
+def _fuzz_request(kind):
+    from pycomm3 import packets as P
+    from pycomm3.cip import DINT, INT, SINT
+    from pycomm3.custom_types import StructTag, FixedSizeString
+    if kind in ("gconn", "gunconn", "read", "readfrag", "write", "writefrag", "rmw", "register", "listidentity"):
+        return make_request(kind)
+    dint = {"tag_type": "atomic", "data_type": "DINT", "data_type_name": "DINT", "type_class": DINT, "instance_id": 5}
+    if kind == "read-array":
+        info = dict(dint, type_class=DINT[5], dimensions=[5, 0, 0], dim=1)
+        return P.ReadTagRequestPacket(1, "arr", 5, info, 0)
+    if kind in ("read-string", "read-struct"):
+        if kind == "read-string":
+            tc = FixedSizeString(84, capacity_=82)
+            dt = {"name": "STRING", "string": 82, "attributes": ["LEN", "DATA"], "template": {"structure_size": 88, "structure_handle": 0x0FCE}, "type_class": tc, "internal_tags": {}}
+        else:
+            tc = StructTag((DINT("a"), 0), (SINT("ZZZZZZZZZZhost"), 4), (INT[2]("w"), 6), bit_members={"f": (4, 3)}, private_members={"ZZZZZZZZZZhost"}, struct_size=12)
+            dt = {"name": "U", "string": None, "attributes": ["a", "f", "w"], "template": {"structure_size": 12, "structure_handle": 0x1234}, "type_class": tc, "internal_tags": {}}
+        info = {"tag_type": "struct", "data_type": dt, "data_type_name": dt["name"], "type_class": tc, "instance_id": 9}
+        return P.ReadTagRequestPacket(1, "s", 1, info, 0)
+    reqs = [P.ReadTagRequestPacket(1, f"t{i}", 1, dint, i) for i in range(3)]
+    if kind == "multi-mixed":
+        reqs[1] = P.WriteTagRequestPacket(1, "t1", 1, dint, 1, value=b"\x01\x00\x00\x00")
+    for r in reqs:
+        r.build_message()
+    return P.MultiServiceRequestPacket(1, reqs)
+
+
+def check_reply_bytes(ki, frame):
+    """any bytes as the reply to a request of kind FUZZ_KINDS[ki]: building the response object and looking at it raises nothing but
+    a library exception; it is truthy only if the bytes hold a zero encapsulation status and (for CIP replies) a general status that
+    means success at the place the standard reply layout puts it - so never when the reply is too short to contain its status words"""
+    from pycomm3.exceptions import PycommError
+    kind = FUZZ_KINDS[ki % len(FUZZ_KINDS)]
+    frame = bytes(frame)
+    req = _fuzz_request(kind)
+    try:
+        resp = req.response_class(req, frame)
+        ok = bool(resp)
+        _ = (resp.error, getattr(resp, "value", None), repr(resp))
+        members = [(bool(r), r.error, getattr(r, "value", None)) for r in getattr(resp, "responses", [])] if kind.startswith("multi") else []
+    except PycommError:
+        return []
+    except RecursionError:
+        raise
+    except Exception as e:
+        if S.where(e) == "harness":
+            raise
+        return [Disc(f"bytes.foreign.{type(e).__name__}.{kind}", f"{kind} reply {frame.hex()}: {e!r}"[:600])]
+    discs = []
+    if kind in ("register", "listidentity"):
+        status_end, gpos = 12, None
+    elif kind == "gunconn":
+        status_end, gpos = 44, 42
+    else:
+        status_end, gpos = 50, 48
+    estatus = struct.unpack("<I", frame[8:12])[0] if len(frame) >= 12 else None
+    g = frame[gpos] if gpos is not None and len(frame) > gpos else None
+    def why_not():
+        if len(frame) < status_end - 1:
+            return f"is only {len(frame)} bytes long (status words end at {status_end})"
+        if estatus != 0:
+            return f"carries encapsulation status {estatus:#x}"
+        if gpos is not None and expected_success(kind, frame[gpos - 2] & 0x7F, g, 0) is False:   # same classification as the status matrix
+            return f"carries general status {g:#x} (reply service {frame[gpos - 2]:#x})"
+        return None
+    if ok and why_not() and not kind.startswith("multi"):   # what a wrapper's own truth value means is not user-visible: its members are
+        discs.append(Disc(f"bytes.accepted.{kind}", f"{kind} reply {frame.hex()[:200]} {why_not()} and was reported as success"))
+    if kind.startswith("multi") and any(m[0] for m in members) and why_not() and not (len(frame) >= status_end - 1 and estatus == 0 and g in (0x06, 0x1E)):   # a wrapper may report "embedded service error" or "partial" over good members
+        discs.append(Disc(f"bytes.member-accepted.{kind}", f"{kind} reply {frame.hex()[:200]} {why_not()}, yet a member reply was reported as success"))
+    for m in members:
+        if m[0] and m[1]:
+            discs.append(Disc(f"bytes.truthy-with-error.{kind}", f"member {m!r}"[:300]))
+    return discs
+
+
+def reply_seed_corpus():
+    """one valid (truthy) reply per fuzz kind: [(kind index, frame)]"""
+    out = []
+    for ki, kind in enumerate(FUZZ_KINDS):
+        if kind == "register":
+            fr = enc_frame(0x65, b"\x01\x00\x00\x00", session=0x77)
+        elif kind == "listidentity":
+            from ..refcodec import encode_list_identity_item
+            from ..refplc import DEFAULT_IDENTITY
+            item = encode_list_identity_item(DEFAULT_IDENTITY)
+            fr = enc_frame(0x63, struct.pack("<HHH", 1, 0x0C, len(item)) + item)
+        elif kind.startswith("multi"):
+            members = [cip_reply(0x4C, 0, [], b"\xc4\x00" + struct.pack("<i", i)) for i in range(3)]
+            if kind == "multi-mixed":
+                members[1] = cip_reply(0x4D, 0, [], b"")
+            body, pos = struct.pack("<H", 3), 2 + 6
+            for m in members:
+                body += struct.pack("<H", pos)
+                pos += len(m)
+            fr = unit_frame(cip_reply(0x0A, 0, [], body + b"".join(members)))
+        else:
+            svc = {"gconn": 0x0E, "gunconn": 0x0E, "read": 0x4C, "readfrag": 0x52, "write": 0x4D, "writefrag": 0x53, "rmw": 0x4E,
+                   "read-array": 0x4C, "read-string": 0x4C, "read-struct": 0x4C}[kind]
+            data = {"read": b"\xc4\x00" + struct.pack("<i", 5), "readfrag": b"\xc4\x00" + struct.pack("<i", 5),
+                    "read-array": b"\xc4\x00" + struct.pack("<5i", 1, 2, 3, 4, 5),
+                    "read-string": b"\xa0\x02\xce\x0f" + struct.pack("<i", 3) + b"abc" + bytes(81),
+                    "read-struct": b"\xa0\x02\x34\x12" + struct.pack("<iBxhh", 7, 8, 1, 2) + bytes(2), "gconn": b"\x01\x02", "gunconn": b"\x01\x02"}.get(kind, b"")
+            cip = cip_reply(svc, 0, [], data)
+            fr = rr_frame(cip) if kind == "gunconn" else unit_frame(cip)
+        out.append((ki, fr))
+    return out
+
+
 def canaries():
     """classification must not depend on what happened earlier in the process (global tables, caches): a few fixed replies are
     classified again after every scenario"""
@@ -691,12 +809,65 @@ def check_unknown_type(code):
     return discs
 
 
+def _atheris_part(ctx, job):
+    """coverage-guided search over (request kind, arbitrary reply bytes); even shards start from one valid reply per kind, odd ones from
+    an empty corpus.  The oracle is inside the target (vf/fuzz_reply.py -> check_reply_bytes); a hit is re-checked here and stored."""
+    import json
+    import re
+    import shutil
+    import subprocess
+    import sys
+    import tempfile
+    from ..runner import VERIF, HarnessError
+    deps = os.path.join(VERIF, ".deps")
+    if not os.path.isdir(os.path.join(deps, "atheris")):
+        ctx.inconclusive.append("atheris not installed (setup.sh could not install it); coverage-guided part skipped")
+        return
+    work = tempfile.mkdtemp(prefix="vf_c13_")
+    try:
+        corpus = os.path.join(work, "corpus")
+        os.makedirs(corpus)
+        if job["shard"] % 2 == 0:
+            for ki, fr in reply_seed_corpus():
+                with open(os.path.join(corpus, "valid-%02d" % ki), "wb") as fh:
+                    fh.write(bytes([ki]) + fr)
+        out_json = os.path.join(work, "found.json")
+        env = dict(os.environ, VF_FUZZ_OUT=out_json, PYTHONPATH=os.pathsep.join([VERIF, deps]))
+        cmd = [sys.executable, "-m", "vf.fuzz_reply", corpus, f"-runs={job['runs']}", f"-seed={ctx.seed + job['shard']}",
+               "-max_len=160", "-verbosity=0", "-print_final_stats=1", f"-artifact_prefix={work}/"]
+
+        def _unlimit():    # libFuzzer reserves a large address space; the worker's own memory cap does not apply to it
+            import resource
+            soft, hard = resource.getrlimit(resource.RLIMIT_AS)
+            resource.setrlimit(resource.RLIMIT_AS, (hard, hard))
+        r = subprocess.run(cmd, capture_output=True, text=True, env=env, cwd=VERIF, timeout=7200, preexec_fn=_unlimit)
+        m = re.search(r"stat::number_of_executed_units:\s*(\d+)", r.stderr)
+        execs = int(m.group(1)) if m else 0
+        ctx.bulk(execs, [], {"atheris-exec": execs})
+        ctx.extra["atheris_execs"] = ctx.extra.get("atheris_execs", 0) + execs
+        ctx.extra["atheris_corpus_files"] = len(os.listdir(corpus))
+        if os.path.exists(out_json):
+            rec = json.load(open(out_json))
+            for hv in rec.get("nt", []):
+                ctx.nt.add(hv)
+            if rec.get("found"):
+                data = bytes.fromhex(rec["found"]["data"])
+                for d in check_reply_bytes(data[0], data[1:]):
+                    ctx.violation(d, "bytes", {"ki": data[0], "frame": data[1:].hex()})
+        elif r.returncode != 0:
+            raise HarnessError(f"atheris target failed rc={r.returncode}: {r.stderr[-800:]}")
+    finally:
+        shutil.rmtree(work, ignore_errors=True)
+
+
 def plan(tier):
     jobs = [{"part": "matrix", "kind": k} for k in KINDS]
     jobs.append({"part": "unknown-type"})
     jobs.append({"part": "wrapper"})
     jobs.append({"part": "multi"})
     jobs.append({"part": "short"})
+    for i in range(2 if tier == "quick" else 12):
+        jobs.append({"part": "atheris", "runs": 40000 if tier == "quick" else 1500000, "shard": i})
     n = 8 if tier == "quick" else 32
     for _ in range(n):
         jobs.append({"part": "forced", "examples": 60 if tier == "quick" else 600})
@@ -733,6 +904,8 @@ def run_job(ctx, job):
                     ctx.violation(d, "wrapper", {"op": op, "status": 0, "ext": [], "estatus": estatus})
                 ctx.case(("wrapper-estatus", op, estatus), True, ["matrix", "wrapper-refusal"])
         return
+    if part == "atheris":
+        return _atheris_part(ctx, job)
     if part == "unknown-type":
         from pycomm3 import DataTypes
         known = {c for c in range(0x1000) if DataTypes.get(c) is not None}
@@ -789,6 +962,8 @@ def run_job(ctx, job):
 
 
 def replay(ctx, kind, case):
+    if kind == "bytes":
+        return check_reply_bytes(case["ki"], bytes.fromhex(case["frame"]))
     if kind == "matrix":
         return check_matrix(case["kind"], case["rsvc"], case["status"], case["ext"], case["estatus"], case.get("header_only", False))
     if kind == "multi":
